@@ -229,7 +229,7 @@ class Inproc(Part):
     generated schedules plus every single preemption inside the shutdown path"""
 
     name = "inproc"
-    budget = {"quick": 200, "thorough": 40000}
+    budget = {"quick": 200, "thorough": 8000}
 
     def setup(self, ctx):
         from vlib import detsched as D
